@@ -344,6 +344,37 @@ func stringPairs() []string {
 	return out
 }
 
+// NullScanCase: reading a NULL (nil, "", empty bytes) into a Path that already holds a path leaves the
+// null Path, not the previous row's path ("a path written to a database and read back keeps its meaning").
+type NullScanCase struct {
+	Text string `json:"text"`
+	Src  string `json:"src"` // nil | empty_string | empty_bytes | nil_bytes
+}
+
+var checkNullScan = register("c02.nullscan", func(c NullScanCase) *Violation {
+	p, err := path.Parse(c.Text)
+	if err != nil {
+		return nil
+	}
+	_ = p.String()
+	var src any
+	switch c.Src {
+	case "empty_string":
+		src = ""
+	case "empty_bytes":
+		src = []byte{}
+	case "nil_bytes":
+		src = []byte(nil)
+	}
+	if err := p.Scan(src); err != nil {
+		return violf("Scan(%s) into a Path holding %q failed: %v", c.Src, c.Text, err)
+	}
+	if p.AST != nil {
+		return violf("Scan(%s) into a Path holding %q left the previous path in place (%q); a NULL read back must give the null Path", c.Src, c.Text, p.String())
+	}
+	return nil
+})
+
 func literalTableCases() []RTCase {
 	var out []RTCase
 	for _, s := range stringPairs() {
@@ -467,6 +498,21 @@ func TestC02(t *testing.T) {
 	ev := newEv(t, "C02")
 	rtEv = ev
 	ev.replayTier(t)
+	t.Run("null_scan_into_a_used_path", func(t *testing.T) {
+		b := ev.enum(t)
+		n := 0
+		for _, text := range []string{`$.a ? (@ > 1)`, `strict $.b`, `$ == 1`, `$x like_regex "a"`} {
+			for _, src := range []string{"nil", "empty_string", "empty_bytes", "nil_bytes"} {
+				c := NullScanCase{Text: text, Src: src}
+				n++
+				ev.Eval("nullscan"+text+src, true)
+				if !b.Check("c02.nullscan", c, checkNullScan(c)) {
+					return
+				}
+			}
+		}
+		ev.Exhaustive("null_sources_by_previous_paths", int64(n))
+	})
 	run := func(name string, cs []RTCase) {
 		t.Run(name, func(t *testing.T) {
 			b := ev.enum(t)
